@@ -4,6 +4,7 @@ import (
 	"bytes"
 	"fmt"
 
+	"github.com/idena-network/idena-go/core/state"
 	"github.com/idena-network/idena-go/core/state/snapshot"
 	"github.com/idena-network/idena-go/core/validators"
 )
@@ -18,19 +19,43 @@ import (
 // emulation (they are decided under C07/C08). beforeSwitch (optional) runs right
 // before the atomic switch (used by the crash-point enumeration).
 // It returns the validator view the fast sync maintained from the diffs.
+// Resumed says how the last FastSync call started: "" fresh, "resumed at N", or "dropped: <why>".
+var Resumed string
+
 func FastSync(src, dst *Replica, target uint64, beforeSwitch func()) (*validators.ValidatorsCache, error) {
 	from := dst.Head().Height()
 	if target <= from || target > src.Head().Height() {
 		return nil, fmt.Errorf("bad target %d (dst head %d, src head %d)", target, from, src.Head().Height())
 	}
-	dst.Chain.PreliminaryHead = dst.Head()
-	ids, err := dst.AppState.IdentityState.CreatePreliminaryCopy(from)
-	if err != nil {
-		return nil, fmt.Errorf("CreatePreliminaryCopy: %w", err)
+	prev := dst.Head()
+	var ids *state.IdentityStateDB
+	var err error
+	if ph := dst.Chain.PreliminaryHead; ph != nil {
+		// an interrupted fast sync is resumed from its stored preliminary head (fastSync.preConsuming); when the
+		// preliminary identity state cannot be loaded everything preliminary is dropped and the sync starts over
+		if ids, err = dst.AppState.IdentityState.LoadPreliminary(ph.Height()); err != nil {
+			dst.Chain.RemovePreliminaryHead(nil)
+			dst.AppState.IdentityState.DropPreliminary()
+			ids = nil
+			Resumed = "dropped: " + err.Error()
+		} else {
+			prev, from = ph, ph.Height()
+			Resumed = fmt.Sprintf("resumed at %d", from)
+			if target < from {
+				return nil, fmt.Errorf("preliminary head %d is above the target %d", from, target)
+			}
+		}
+	} else {
+		Resumed = ""
+	}
+	if ids == nil {
+		dst.Chain.PreliminaryHead = dst.Head()
+		if ids, err = dst.AppState.IdentityState.CreatePreliminaryCopy(from); err != nil {
+			return nil, fmt.Errorf("CreatePreliminaryCopy: %w", err)
+		}
 	}
 	fsValidators := validators.NewValidatorsCache(ids, dst.AppState.State.GodAddress())
 	fsValidators.Load()
-	prev := dst.Head()
 	for h := from + 1; h <= target; h++ {
 		hdr := src.Chain.GetBlockHeaderByHeight(h)
 		if hdr == nil {
